@@ -57,6 +57,8 @@ func (db *DB) handleMessages(ctx context.Context, sub event.Subscription) {
 						defer docIDQueue.done(evt.DocID)
 					}
 
+					verifGate("merge.begin", db, evt.DocID)
+
 					// retry the merge process if a conflict occurs
 					//
 					// conficts occur when a user updates a document
@@ -70,6 +72,7 @@ func (db *DB) handleMessages(ctx context.Context, sub event.Subscription) {
 					}
 
 					if err != nil {
+						verifGate("merge.failed", db, evt.DocID)
 						log.ErrorContextE(
 							ctx,
 							"Failed to execute merge",
